@@ -298,6 +298,8 @@ def compare_with_model(outdir):
     cases = []
     for l in lines:
         f = l.split("\t")
+        if "=" not in f or len(f) < f.index("=") + 3:
+            continue   # a line cut short when the harness was stopped (watchdog, timeout): not a case
         k = f.index("=")
         cases.append(("\t".join(f[:k]), f[k + 1:]))
     outs = run_model([c[0] for c in cases])
